@@ -472,7 +472,16 @@ func c12(c *wk.Ctx) {
 				r.Violationf("C12|file|outcome=encode-error", rep, "EncodeHeader: %v", err)
 				return
 			}
-			for _, e := range ents {
+			for k, e := range ents {
+				if i%3 == 1 && k%2 == 0 {
+					// the caller offers something that is not an object (another database, an expiry): the encoder refuses it, the
+					// caller skips it and carries on - the file must hold exactly the entries that were accepted
+					if err := enc.EncodeObject(e.db+1, []byte("refused"), 1600000000999, 42); err == nil {
+						r.Violationf("C12|file|outcome=non-object-accepted", rep, "EncodeObject accepted an int as an object")
+						return
+					}
+					r.Count("file_entries_refused_between_accepted_ones", 1)
+				}
 				if err := enc.EncodeObject(e.db, e.key, e.exp, toObj(e.v)); err != nil {
 					r.Violationf("C12|file|outcome=encode-error", rep, "EncodeObject: %v", err)
 					return
